@@ -1807,10 +1807,15 @@ def eager_getslice_lambda(op, x):
         expr = expr(**{x.var.name: head})
     if tail:
         expr = ops.getslice(expr, tail)
-    if x.var.name in expr.inputs:  # dim is preserved, e.g. x[1:]
-        return Lambda(x.var, expr)
-    else:  # dim is eliminated, e.g. x[0]
+    if isinstance(head, int):  # dim is eliminated, e.g. x[0]
         return expr
+    # dim is preserved, e.g. x[1:]
+    var = x.var
+    if var.name not in expr.inputs and head != slice(None):
+        # The body is constant along the dim, so only its size changes.
+        size = len(range(*head.indices(var.output.size)))
+        var = Variable(var.name, Bint[size])
+    return Lambda(var, expr)
 
 
 class Independent(Funsor):
